@@ -211,12 +211,8 @@ def run_case(case, ctx):
             if len(avals) <= 1:
                 vals = avals
                 ctx.count("cff-glyphs-compatible-modulo-explicit-closing-line")
-        if len(vals) > 1 and ttf and in_layer and overflow_on_missing_base(gi_base, n, set(fam["sparse"]["names"])) and not case.get("no_exclusions"):
-            full = {s_ for i, s_ in sigs.items() if i < nfull}
-            if len(full) == 1:
-                # KF-C09-1: only the sparse master deviates, and the glyph reaches a base outside the layer through a transform beyond F2Dot14
-                ctx.count("glyphs-in-known-finding-class(KF-C09-1)")
-                continue
+        if ttf and in_layer and overflow_on_missing_base(gi_base, n, set(fam["sparse"]["names"])):
+            ctx.count("glyphs-in-fixed-finding-class(KF-C09-1)")  # counted only: the finding is repaired, nothing is excluded
         if len(vals) > 1:
             raise Violation("masters are not point-compatible for a glyph", glyph=n, signatures={str(i): repr(s)[:300] for i, s in sigs.items()}, tweaks=fam["tweaks"], options=case["opts"])
         ctx.count("glyph-signatures-compared")
